@@ -151,7 +151,10 @@ def r1_who_may_write(ctx):
                     for s_, val_ in clips:
                         lo = kw(val_, "a_min") or kw(val_, "min") or (val_.args[1] if len(val_.args) > 1 and call_name(val_).startswith("np.") else None)
                         ts = enclosing_tests(s_)
-                        cond_ok = not ts or (len(ts) == 1 and ts[0][1] and norm(ts[0][0]) == f"np.any({v} < 0)")
+                        tt = norm(expand(f, ts[0][0])) if ts else ""
+                        if tt.startswith("bool(") and tt.endswith(")"):
+                            tt = tt[5:-1]
+                        cond_ok = not ts or (len(ts) == 1 and ts[0][1] and tt in (f"np.any({v} < 0)", f"({v} < 0).any()", f"np.any({v} < 0.0)", f"({v} < 0.0).any()", f"{v}.min() < 0", f"np.min({v}) < 0"))
                         g = ctx.cfg(f)
                         before = all(g.all_paths_pass(g.entry, [sn], g.nodes_of(s_) + [n_ for t_, _ in ts for n_ in g.nodes_of(enclosing_stmt(t_))]) for sn in g.nodes_of(st)) if ts else all(g.must_precede(g.nodes_of(s_), sn) for sn in g.nodes_of(st))
                         if lo is not None and norm(lo) in ("0", "0.0") and cond_ok and before:
